@@ -55,6 +55,7 @@ class Net (object):
     self.sw = []
     self.taps = []
     self.linkq = []
+    self.pool = pool
     self.burst = None
     self.burst_strays = []
     self.arrival_log = []
@@ -85,6 +86,12 @@ class Net (object):
         tap["pins"].append(m)
         if m["buffer_id"] != 0xffffffff:
           tap["outstanding"][m["buffer_id"]] = m
+        elif self.pool > 0 and len(tap["outstanding"]) < self.pool \
+             and m["total_len"] > 0:
+          # seen from outside: the switch had no buffer left although fewer
+          # ids than its pool are with the controller - some release (by a
+          # flow_mod or packet_out the controller did send) never took effect
+          tap["starved"] = (len(tap["outstanding"]), self.pool)
 
   def _ctl_wrote (self, tap, data):
     tap["to_sw"] += data
@@ -323,6 +330,12 @@ def run_case (case, rep):
       if not ok: break
       # clause 6: at quiescence no buffer id is outstanding
       for i, tap in enumerate(net.taps):
+        if tap.get("starved"):
+          fire("switch sends an unbuffered packet-in although released "
+               "buffers should be free again",
+               "switch %d: %d ids outstanding, pool %d" %
+               ((i,) + tap["starved"]))
+          ok = False; break
         if tap["outstanding"]:
           fire("buffered packet handed to the controller was never released",
                "switch %d buffer ids %r (pool %d)" %
@@ -416,8 +429,9 @@ def plan (tier, seed):
             [dict(mode="rand", count=80, maxlen=60, sub=i) for i in range(4)])
   return ([dict(mode="exh", n=3, nsw=1, shard=i, nshards=8) for i in range(8)] +
           [dict(mode="exh", n=3, nsw=2, shard=i, nshards=8) for i in range(8)] +
-          [dict(mode="exh", n=4, nsw=2, shard=i, nshards=64) for i in range(16)] +
-          [dict(mode="rand", count=400, maxlen=200, sub=i) for i in range(16)])
+          [dict(mode="exh", n=4, nsw=2, shard=i, nshards=64) for i in range(32)] +
+          [dict(mode="exh", n=4, nsw=1, shard=i, nshards=32) for i in range(16)] +
+          [dict(mode="rand", count=1500, maxlen=200, sub=i) for i in range(32)])
 
 
 def run (spec, rep):
